@@ -99,8 +99,15 @@ static volatile int race_winner, race_returned;
 static void *racer(void *arg) {
   long id = (long)arg;
   mvsim_user_point();
-  int rc = (id & 1) ? myth_init() : myth_init_ex(0);
-  (void)rc;
+  myth_globalattr_t ga;
+  myth_globalattr_init(&ga);
+  myth_globalattr_set_n_workers(&ga, (size_t)cur_nw); myth_globalattr_set_bind_workers(&ga, 0); myth_globalattr_set_stacksize(&ga, 32768);
+  int rc = myth_init_ex(&ga);
+  (void)rc; (void)id;
+  /* whoever returns from myth_init -- winner or loser of the race -- must find the library initialised
+     with the requested settings (the defaults still hold another worker count, as after an earlier cycle) */
+  MVH_CHECK(myth_get_num_workers() == cur_nw, "C15-INIT-EARLY", "racing myth_init_ex returned to a caller before the initialisation had completed: myth_get_num_workers()=%d, requested %d", myth_get_num_workers(), cur_nw);
+  MVH_CHECK(mvsim_n_workers_spawned() == cur_nw - 1, "C15-INIT-EARLY", "racing myth_init_ex returned to a caller when only %d of %d workers had been started", mvsim_n_workers_spawned(), cur_nw - 1);
   race_returned++;
   if (mvsim_lib_rank() == 0 && !race_winner) {
     /* this context became the main thread of the library */
@@ -124,7 +131,7 @@ static void run(const long *p, mvsim_runcfg *cfg, mvsim_runstats *st) {
     cur_nw = pick_nw(0);
     char buf[32]; snprintf(buf, sizeof buf, "%d", cur_nw);
     setenv("MYTH_NUM_WORKERS", buf, 1);
-    myth_globalattr_set_n_workers(0, (size_t)cur_nw);
+    myth_globalattr_set_n_workers(0, (size_t)cur_nw + 1);      /* stale defaults, as left behind by an earlier cycle */
     myth_globalattr_set_bind_workers(0, 0);
     race_winner = 0; race_returned = 0;
     int ids[3];
